@@ -99,7 +99,23 @@ fn replay(case: &Value) -> Vec<Violation> {
     }
     let x = jd(&case["x"]);
     let e = ENTRIES.into_iter().find(|e| *e == entry).unwrap();
+    if let Some(a) = case.get("after") {
+        let first = (a["p"].as_u64().unwrap(), Mode::from_name(a["mode"].as_str().unwrap()).unwrap());
+        return check_after(e, &bd(&x), &x, first, (p, m)).into_iter().collect();
+    }
     check(e, &bd(&x), &x, p, m).into_iter().collect()
+}
+
+/// one call preceded by another call of the same entry point on the same operand (same thread): the
+/// functions are pure, so the second result must be what the model says whatever came first
+fn check_after(entry: &str, xb: &BigDecimal, x: &Dec, first: (u64, Mode), second: (u64, Mode)) -> Option<Violation> {
+    let _ = guard(|| call(entry, xb, first.0, first.1));
+    check(entry, xb, x, second.0, second.1).map(|mut v| {
+        if let Some(o) = v.case.as_object_mut() {
+            o.insert("after".into(), json!({"p": first.0, "mode": first.1.name()}));
+        }
+        v.attr("history", true)
+    })
 }
 
 fn sweep(run: &Run, x: &Dec, ps: &[u64], t: &mut Tally) {
@@ -326,6 +342,45 @@ fn main() {
                 sweep(&run, &x, &[head.len() as u64], &mut t);
                 if l % 16 == 1 {
                     sweep(&run, &Dec { n: -x.n.clone(), s: -2 }, &[head.len() as u64], &mut t);
+                }
+            }
+        }
+        t
+    });
+    // S10: call histories of length two: every ordered pair of (precision, mode) settings from a small set on each
+    // operand through each entry point, and the descending chain of precisions under each mode
+    let hx: Vec<Dec> = vec![Dec::new(12345678, 3), Dec::new(-99995, 2), Dec::new(25, 1), Dec::new(1500001, 0), Dec { n: big(&filler_digits(run.seed(), 40, 40)), s: 17 }, Dec { n: pow10(30) - 1, s: 4 }, Dec::new(-14999, 0), Dec::new(5, 0)];
+    let hp: Vec<u64> = tier.pick(vec![1, 2, 3, 5], vec![1, 2, 3, 4, 5, 8, 19, 20]);
+    run.bound("S10_history_operands", hx.len());
+    run.bound("S10_history_precisions", json!(hp));
+    run.par("S10 call histories of length two", hx.len() * ENTRIES.len(), |ie| {
+        let (i, e) = (ie / ENTRIES.len(), ENTRIES[ie % ENTRIES.len()]);
+        let mut t = Tally::default();
+        let x = &hx[i];
+        if e == "Context::round_decimal_ref(&BigInt)" && x.s != 0 {
+            return t;
+        }
+        let xb = bd(x);
+        t.states += 1;
+        let modes: Vec<Mode> = if e == "with_prec" { vec![Mode::HalfUp] } else { MODES.to_vec() };
+        for &p1 in hp.iter() {
+            for &m1 in modes.iter() {
+                for &p2 in hp.iter() {
+                    for &m2 in modes.iter() {
+                        t.transitions += 2;
+                        t.nontrivial += 1;
+                        if let Some(v) = check_after(e, &xb, x, (p1, m1), (p2, m2)) {
+                            run.report(v);
+                        }
+                    }
+                }
+            }
+        }
+        for &m in modes.iter() {
+            for p in (1..ndigits(&x.n) + 2).rev() {
+                t.transitions += 2;
+                if let Some(v) = check_after(e, &xb, x, (p + 1, m), (p, m)) {
+                    run.report(v);
                 }
             }
         }
